@@ -111,9 +111,17 @@ package engine
 //@ ensures[C09,C17] ncalls((*PlError).ChainAppend) == 1 ==> ncalls(getParamRefScript) >= 1 && callarg((*PlError).ChainAppend, 0, 1) == procc.Name && callarg((*PlError).ChainAppend, 0, 2) == callarg(getParamRefScript, ncalls(getParamRefScript) - 1, 0).NamePos
 //@ ensures[C09,C17] ncalls(NewErr) == 1 && ncalls(getParamRefScript) >= 1 ==> callarg(NewErr, 0, 0) == procc.Name && callarg(NewErr, 0, 1) == callarg(getParamRefScript, ncalls(getParamRefScript) - 1, 0).NamePos
 //@ ensures[C09,C17] ncalls(NewErr) == 1 && ncalls(getParamRefScript) == 0 ==> callarg(NewErr, 0, 0) == old(p.name) && callarg(NewErr, 0, 1) == old(p.namePos)
+// C17: a cycle is reported by the callee with the (script, position) pair its caller left in p - so when this
+// script descends into a used script, the script name of that pair has to be this script's (the position is this
+// script's call site).  NOT the case on the pinned tree: p.name stays the root of the traversal (the existing test
+// TestCallRefCheck pins that name), so `x.p:ln:col: circular dependency ...` pairs the root's name with a line/column
+// of another script - recorded as an open known finding, see /verif/known_findings.json.
+//@ observe errname string = p.name
+//@ ensures[C17] forall k mathint :: 0 <= k && k < ncalls(dfs) ==> callobs(dfs, k, errname) == procc.Name
 //@ loop 1
 //@ invariant[C09,C17] ncalls((*PlError).ChainAppend) == 0 && ncalls(NewErr) == 0 && ncalls(getParamRefScript) == tomath(rangeindex) + 1
 //@ invariant[C09,C17] rangeindex >= 0 ==> callarg(getParamRefScript, tomath(rangeindex), 0) == procc.CallRef[rangeindex]
+//@ invariant[C17] forall k mathint :: 0 <= k && k < ncalls(dfs) ==> callobs(dfs, k, errname) == procc.Name
 //@ invariant wfPath(sPath) && resolvedOK(p) && len(sPath.path) == old(len(sPath.path)) + 1 && sPath.path[len(sPath.path)-1] == name
 //@ invariant forall i :: 0 <= i && i < old(len(sPath.path)) ==> sPath.path[i] == old(sPath.path[i])
 //@ invariant forall n string :: old(dom(p.retMap, n)) ==> dom(p.retMap, n)
